@@ -1,6 +1,7 @@
 package main
 
 import (
+	"math/rand"
 	"sort"
 	"errors"
 	"fmt"
@@ -132,3 +133,5 @@ func (c *chunkReader) Read(p []byte) (int, error) {
 }
 
 func sortStrings(s []string) { sort.Strings(s) }
+
+func newRand(seed int64) *rand.Rand { return rand.New(rand.NewSource(seed)) }
